@@ -238,7 +238,14 @@ pub(crate) fn blend<S: Sample>(
         let original_frame_region = new_grid.regions_and_shifts()[idx]
             .0
             .intersection(full_frame_region);
-        let clipped_original_frame_region = original_frame_region.intersection(output_frame_region);
+        // The alpha channel of the new frame may cover a different region than this channel (it is
+        // upsampled separately when `ec_upsampling` differs); blend only where both are available.
+        let new_alpha_region = alpha_idx
+            .filter(|alpha_idx| alpha_idx + color_channels != idx)
+            .map(|alpha_idx| new_grid.regions_and_shifts()[alpha_idx + color_channels].0);
+        let clipped_original_frame_region = original_frame_region
+            .intersection(new_alpha_region.unwrap_or(original_frame_region))
+            .intersection(output_frame_region);
 
         let mut base_alpha_grid;
         let mut base_alpha = None;
@@ -351,12 +358,33 @@ pub(crate) fn blend<S: Sample>(
         }
         new_grid.buffer_mut()[idx].convert_to_float_modular(bit_depth)?;
 
+        // The new frame's grids are cut to the blended rectangle below.
+        let clipped_width = clipped_original_frame_region.width as usize;
+        let clipped_height = clipped_original_frame_region.height as usize;
+        let new_left = clipped_original_frame_region
+            .left
+            .abs_diff(original_frame_region.left) as usize;
+        let new_top = clipped_original_frame_region
+            .top
+            .abs_diff(original_frame_region.top) as usize;
+
         let mut blend_params = if clone_empty {
             let new_alpha = alpha_idx.map(|idx| {
-                new_grid.buffer()[idx + color_channels]
+                let alpha = new_grid.buffer()[idx + color_channels]
                     .as_float()
                     .unwrap()
-                    .as_subgrid()
+                    .as_subgrid();
+                match new_alpha_region {
+                    Some(region) => {
+                        let left = clipped_original_frame_region.left.abs_diff(region.left) as usize;
+                        let top = clipped_original_frame_region.top.abs_diff(region.top) as usize;
+                        alpha.subgrid(left..(left + clipped_width), top..(top + clipped_height))
+                    }
+                    None => alpha.subgrid(
+                        new_left..(new_left + clipped_width),
+                        new_top..(new_top + clipped_height),
+                    ),
+                }
             });
             let premultiplied =
                 alpha_idx.and_then(|idx| image_header.metadata.ec_info[idx].alpha_associated());
@@ -370,10 +398,21 @@ pub(crate) fn blend<S: Sample>(
             )
         } else {
             let new_alpha = alpha_idx.map(|idx| {
-                new_grid.buffer()[idx + color_channels]
+                let alpha = new_grid.buffer()[idx + color_channels]
                     .as_float()
                     .unwrap()
-                    .as_subgrid()
+                    .as_subgrid();
+                match new_alpha_region {
+                    Some(region) => {
+                        let left = clipped_original_frame_region.left.abs_diff(region.left) as usize;
+                        let top = clipped_original_frame_region.top.abs_diff(region.top) as usize;
+                        alpha.subgrid(left..(left + clipped_width), top..(top + clipped_height))
+                    }
+                    None => alpha.subgrid(
+                        new_left..(new_left + clipped_width),
+                        new_top..(new_top + clipped_height),
+                    ),
+                }
             });
             let premultiplied =
                 alpha_idx.and_then(|idx| image_header.metadata.ec_info[idx].alpha_associated());
@@ -394,19 +433,15 @@ pub(crate) fn blend<S: Sample>(
                 .top
                 .abs_diff(output_frame_region.top) as usize,
         );
-        blend_params.new_topleft = (
-            clipped_original_frame_region
-                .left
-                .abs_diff(original_frame_region.left) as usize,
-            clipped_original_frame_region
-                .top
-                .abs_diff(original_frame_region.top) as usize,
-        );
-        blend_params.width = clipped_original_frame_region.width as usize;
-        blend_params.height = clipped_original_frame_region.height as usize;
+        blend_params.new_topleft = (0, 0);
+        blend_params.width = clipped_width;
+        blend_params.height = clipped_height;
 
-        let new_grid = new_grid.buffer()[idx].as_float().unwrap();
-        blend_single(target_subgrid, new_grid.as_subgrid(), &blend_params);
+        let new_grid = new_grid.buffer()[idx].as_float().unwrap().as_subgrid().subgrid(
+            new_left..(new_left + clipped_width),
+            new_top..(new_top + clipped_height),
+        );
+        blend_single(target_subgrid, new_grid, &blend_params);
         output_grid.append_channel(target_grid, target_region);
     }
 
